@@ -439,6 +439,48 @@ func TestVerifC19Handler(t *testing.T) {
 				r, ok := renderFrom(n)
 				return r, n, ok
 			}
+			if images {
+				// the same with images (round 7): the cut is computed on the original contents (as the walk measures
+				// them; these models have no projector, so images cost nothing), the final prompt is the template on
+				// system(<n) ++ the retained messages REWRITTEN by the specification of the tag numbering (images of the
+				// retained run numbered from 0 in order; first `[img]` replaced, else tag prefixed).  For requests through
+				// the OpenAI entry `conv` is the SPECIFIED conversion (c19Flatten): an image part that is not its own
+				// message, or is numbered differently, shows up here with the request as input.
+				if _, n, ok := specPrompt(lim); ok {
+					var in []api.Message
+					for j := 0; j < n; j++ {
+						if conv[j].Role == "system" {
+							in = append(in, conv[j])
+						}
+					}
+					k := 0
+					for _, m := range conv[n:] {
+						c, pre := m.Content, ""
+						for range m.Images {
+							tag := fmt.Sprintf("[img-%d]", k)
+							k++
+							if strings.Contains(c, "[img]") {
+								c = strings.Replace(c, "[img]", tag, 1)
+							} else {
+								pre += tag
+							}
+						}
+						m.Content = pre + c
+						in = append(in, m)
+					}
+					var b bytes.Buffer
+					if err := e.tmplOf(tc).Execute(&b, template.Values{Messages: in, Tools: tools}); err == nil {
+						out.Count("handler_l2_prompt_spec_with_images_evaluated")
+						if b.String() != got.Prompt || k != len(got.Images) {
+							via := "POST /api/chat"
+							if oreq != nil {
+								via = "POST /v1/chat/completions (every content part its own message)"
+							}
+							out.L2("handler-prompt-spec", line, fmt.Sprintf("%s: the prompt / images sent to the runner (%d images) are not the template applied to the specified conversation cut for num_ctx %d (retained run [%d:], %d images, tags numbered in order): got %q want %q", via, len(got.Images), lim, n, k, c19Clip(got.Prompt), c19Clip(b.String())))
+						}
+					}
+				}
+			}
 			if !images {
 				if want, n, ok := specPrompt(lim); ok {
 					out.Count("handler_l2_limit_evaluated")
